@@ -681,8 +681,12 @@ func (sema *ExprSemanticsChecker) checkArrayDeref(n *ArrayDerefNode) ExprType {
 		// For strict object at receiver of .*
 		found := false
 		for _, t := range ty.Props {
-			if _, ok := t.(*ObjectType); ok {
+			switch t.(type) {
+			case *ObjectType, AnyType:
+				// A value of type any may be an object. Do not report an error for a type we cannot know.
 				found = true
+			}
+			if found {
 				break
 			}
 		}
